@@ -24,9 +24,9 @@ Python objects ↦ values
   `struct.Struct(fmt).pack(v)`  ↦ `encode` (range error = `struct.error`, class name `error`;
                                   no prefix = native = little-endian on the x86-64 host)
   dict `section_numbers`, `symbol_id_map`, `StringTable.names` ↦ association lists, newest first
-  `obj.arch.get_reloc_type(..)` ↦ `Rel.rtype : Option Nat` computed by the harness with the real
-                                  arch object (`none` = raises NotImplementedError; only x86_64
-                                  implements it) — arch code, not part of the ELF writer
+  `obj.arch.get_reloc_type(..)` ↦ `Rel.rtype : RType` computed by the harness with the real arch
+                                  object (only x86_64 implements it, for 4 relocation names) —
+                                  arch code, not part of the ELF writer
   ET_DYN / write_dynamic_section / create_hash_table are not modelled (the property is about
   relocatable and executable files).
 -/
@@ -72,17 +72,20 @@ def toLE : Nat → Nat → List Nat
   | 0, _ => []
   | n + 1, v => v % 256 :: toLE n (v / 256)
 
+/-- the values `struct.pack` accepts for a format character -/
+def fits (f : Fmt) (v : Int) : Bool :=
+  if f.signed then decide (-(2 ^ (8 * f.size - 1) : Int) ≤ v ∧ v < 2 ^ (8 * f.size - 1))
+  else decide (0 ≤ v ∧ v < 2 ^ (8 * f.size))
+
+/-- byte order of a prefix on the (little-endian) host -/
+def applyOrder (o : Order) (le : List Nat) : List Nat :=
+  match o with
+  | .gt => le.reverse
+  | _ => le
+
 /-- `FormatField.encode`: `struct.Struct(prefix + fmt).pack(value)` -/
 def encode (f : PField) (v : Int) : Except Err (List Nat) :=
-  let n := f.fmt.size
-  let ok : Bool :=
-    if f.fmt.signed then decide (-(2 ^ (8 * n - 1) : Int) ≤ v ∧ v < 2 ^ (8 * n - 1))
-    else decide (0 ≤ v ∧ v < 2 ^ (8 * n))
-  if ok then
-    let le := toLE n (v % 2 ^ (8 * n)).toNat
-    .ok (match f.order with
-         | .gt => le.reverse
-         | _ => le)
+  if fits f.fmt v then .ok (applyOrder f.order (toLE f.fmt.size (v % 2 ^ (8 * f.fmt.size)).toNat))
   else .error .StructError
 
 abbrev Hdr := List (FName × Int)
@@ -124,15 +127,22 @@ structure Sym where
   name : List Nat
   isGlobal : Bool                 -- `binding == ir.Binding.GLOBAL`
   value : Option Nat              -- `None` = undefined
-  section : Option (List Nat)     -- `None` with a value = absolute symbol
+  sect : Option (List Nat)        -- `None` with a value = absolute symbol
   typ : SymTyp
   size : Nat
   deriving DecidableEq, Repr
 
+/-- outcome of `obj.arch.get_reloc_type(rel.reloc_type, symbol)` (arch code, evaluated by the harness) -/
+inductive RType
+  | ok (n : Nat)
+  | notImplemented                -- base class: `raise NotImplementedError("ELF format relocations")`
+  | keyError                      -- x86_64: `elf_reloc_mapping[reloc_type]` has no such key
+  deriving DecidableEq, Repr
+
 structure Rel where
-  rtype : Option Nat              -- result of arch.get_reloc_type, `none` = NotImplementedError
+  rtype : RType
   symbolId : Nat
-  section : List Nat
+  sect : List Nat
   offset : Nat
   addend : Int
   deriving DecidableEq, Repr
@@ -215,7 +225,7 @@ def symbolIdValue (o : Obj) (id : Nat) : Except Err Nat :=
     match s.value with
     | none => .error .ValueError
     | some v =>
-      match s.section with
+      match s.sect with
       | none => .ok v
       | some sn =>
         match findSec o.sections sn with
@@ -343,7 +353,7 @@ def St.writeSymbol (q : Quirks) (L : Layouts) (o : Obj) (s : St) (nr : Nat) (sy 
     match sy.value with
     | none => .ok (0, 0)
     | some v =>
-      match sy.section with
+      match sy.sect with
       | none => if q.absKeyError then .error .KeyError else .ok (0xFFF1, v)
       | some sn =>
         match assoc sn s.secnums with
@@ -413,7 +423,7 @@ def insertName (n : List Nat) : List (List Nat) → List (List Nat)
 
 /-- `sorted(reloc_groups)`: the distinct section names, ascending -/
 def relocSectionNames (rels : List Rel) : List (List Nat) :=
-  rels.foldl (fun acc r => insertName r.section acc) []
+  rels.foldl (fun acc r => insertName r.sect acc) []
 
 /-- one relocation entry -/
 def St.writeRela (L : Layouts) (c : Cls) (s : St) (r : Rel) : Except Err St :=
@@ -421,8 +431,9 @@ def St.writeRela (L : Layouts) (c : Cls) (s : St) (r : Rel) : Except Err St :=
   | none => .error .KeyError
   | some rsym =>
     match r.rtype with
-    | none => .error .NotImplementedError
-    | some rtype =>
+    | .notImplemented => .error .NotImplementedError
+    | .keyError => .error .KeyError
+    | .ok rtype =>
       let info : Int := match c with
         | .c64 => (rsym : Int) * 4294967296 + rtype
         | .c32 => (rsym : Int) * 256 + rtype
@@ -442,7 +453,7 @@ def writeRelas (L : Layouts) (c : Cls) : St → List Rel → Except Err St
 def St.writeRelaGroup (L : Layouts) (o : Obj) (s : St) (secName : List Nat) : Except Err St :=
   let alignment := wordAlign o.arch.cls
   let entsize := hsize L.rela
-  let group := o.relocs.filter (fun r => r.section = secName)
+  let group := o.relocs.filter (fun r => r.sect = secName)
   match s.alignTo alignment with
   | .error e => .error e
   | .ok s =>
@@ -529,15 +540,40 @@ def ident (a : Arch) : List Nat :=
    (match a.en with | .le => 1 | .be => 2),
    1, 0] ++ zeros 8
 
+/-- `if self.obj.images and self.e_type in [ET_EXEC, ET_DYN]` -/
+def withImages (o : Obj) (t : EType) : Bool := !o.images.isEmpty && t == .exec
+
+/-- `e_phnum`, `e_phentsize`, `e_phoff` as set by `write_images` (0 when it does not run) -/
+def phnum (o : Obj) (t : EType) : Nat := if withImages o t then o.images.length else 0
+def phentsize (L : Layouts) (o : Obj) (t : EType) : Nat := if withImages o t then hsize L.phdr else 0
+def phoff (L : Layouts) (o : Obj) (t : EType) : Nat := if withImages o t then 16 + hsize L.ehdr else 0
+
+/-- the writer after `write_identification` and the two `seek`s over the header area -/
+def initState (L : Layouts) (o : Obj) (t : EType) : St :=
+  { base := 16 + hsize L.ehdr + phnum o t * phentsize L o t, body := [], strtab := [0], names := [],
+    shdrs := [], secnums := [], phdrs := [], symIds := [], shoff := 0 }
+
+/-- `e_entry` in `write_elf_header` -/
+def entryValue (o : Obj) (t : EType) : Except Err Int :=
+  if t == .exec then
+    match o.entry with
+    | none => .ok 0
+    | some id =>
+      match symbolIdValue o id with
+      | .error e => .error e
+      | .ok v => .ok v
+  else .ok 0
+
+/-- the ELF header object at `write_elf_header` -/
+def elfHeader (L : Layouts) (o : Obj) (t : EType) (s : St) (entry : Int) (shstrndx : Nat) : Hdr :=
+  [(.e_type, t.val), (.e_machine, o.arch.machine), (.e_version, 1), (.e_entry, entry),
+   (.e_phoff, phoff L o t), (.e_shoff, s.shoff), (.e_flags, 0), (.e_ehsize, 16 + hsize L.ehdr),
+   (.e_phentsize, phentsize L o t), (.e_phnum, phnum o t), (.e_shentsize, hsize L.shdr),
+   (.e_shnum, s.shdrs.length + 1), (.e_shstrndx, shstrndx)]
+
 /-- `export_object` (for ET_REL and ET_EXEC) -/
 def exportObject (q : Quirks) (L : Layouts) (o : Obj) (t : EType) : Except Err (List Nat) :=
-  let withImages := !o.images.isEmpty && t == .exec
-  let phnum := if withImages then o.images.length else 0
-  let phentsize := if withImages then hsize L.phdr else 0
-  let phoff := if withImages then 16 + hsize L.ehdr else 0
-  let s0 : St := { base := 16 + hsize L.ehdr + phnum * phentsize, body := [], strtab := [0], names := [],
-                   shdrs := [], secnums := [], phdrs := [], symIds := [], shoff := 0 }
-  match (if withImages then writeImages q s0 o.images else .ok s0) with
+  match (if withImages o t then writeImages q (initState L o t) o.images else .ok (initState L o t)) with
   | .error e => .error e
   | .ok s =>
   match writeSections s o.sections with
@@ -549,35 +585,21 @@ def exportObject (q : Quirks) (L : Layouts) (o : Obj) (t : EType) : Except Err (
   match (if t == .rel then writeRelaTable L o s else .ok s) with
   | .error e => .error e
   | .ok s =>
-  let s := writeStringTable s
-  match writeSectionHeaders L s with
+  match writeSectionHeaders L (writeStringTable s) with
   | .error e => .error e
   | .ok s =>
   -- write_elf_header
-  let entryE : Except Err Int :=
-    if t == .exec then
-      match o.entry with
-      | none => .ok 0
-      | some id =>
-        match symbolIdValue o id with
-        | .error e => .error e
-        | .ok v => .ok v
-    else .ok 0
-  match entryE with
+  match entryValue o t with
   | .error e => .error e
   | .ok entry =>
   match assoc strtabName s.secnums with
   | none => .error .KeyError
   | some shstrndx =>
-  let eh : Hdr := [(.e_type, t.val), (.e_machine, o.arch.machine), (.e_version, 1), (.e_entry, entry),
-                   (.e_phoff, phoff), (.e_shoff, s.shoff), (.e_flags, 0), (.e_ehsize, 16 + hsize L.ehdr),
-                   (.e_phentsize, phentsize), (.e_phnum, phnum), (.e_shentsize, hsize L.shdr),
-                   (.e_shnum, s.shdrs.length + 1), (.e_shstrndx, shstrndx)]
-  match serialize L.ehdr eh with
+  match serialize L.ehdr (elfHeader L o t s entry shstrndx) with
   | .error e => .error e
   | .ok ehb =>
   -- write_program_headers
-  if s.phdrs.length ≠ phnum then .error .AssertionError else
+  if s.phdrs.length ≠ phnum o t then .error .AssertionError else
   match serializeAll L.phdr s.phdrs with
   | .error e => .error e
   | .ok phb => .ok (ident o.arch ++ ehb ++ phb ++ s.body)
